@@ -28,7 +28,7 @@ from pyvc.values import NONE, VBool, VInt, VRef, VSeq, VStr, VTuple, VType, VUnk
 from pyvc.verify import Maker, p_bool, p_int, p_str
 from contracts import c05spec as sp
 from contracts import c05lemmas as lem
-from contracts.c05exec import PH, PTok, PV, SerExecutor, DICTSUB, hname, istype, cls_name, tname, BUILTIN_CLASS_NAMES
+from contracts.c05exec import marker, PH, PTok, PV, SerExecutor, DICTSUB, hname, istype, cls_name, tname, BUILTIN_CLASS_NAMES
 
 SER_PY = "sharepoint2text/parsing/extractors/serialization.py"
 DT_PY = "sharepoint2text/parsing/extractors/data_types.py"
@@ -354,6 +354,10 @@ def kw_invariant(seen, has, val, j, cn):
     return lem._kwinv(seen, has, val, j, cn)
 
 
+def all_seen(seen, cn):
+    return lem._allseen(seen, cn)
+
+
 def dd_loop_inv(lc):
     kws = local_refs(lc, ("pvmap",))                 # the keyword dictionary filled by the loop (whatever its name)
     if len(kws) != 1:
@@ -374,6 +378,21 @@ def dd_construct_facts(ex, st, cn, has, val):
         return []
     seen, has0, val0, j, cn0 = g
     return [lem.BM_all(seen, has, val, j, cn)]
+
+
+def dd_nameset_comp(ex, st, cn, nm, cond, vt, has, val):
+    """The keyword map written as a comprehension: when filter and value are `name in data` / the decoded entry, it is exactly
+    the map the field loop builds (the loop's exit invariant), so the same lemma instance applies."""
+    if not (z3.is_app(cond) and cond.decl().name() == "HASKEY" and cond.num_args() == 2 and cond.arg(1).eq(nm)):
+        return False
+    j = cond.arg(0)
+    if not vt.eq(sp.norm(sp.DESER(sp.GET(j, nm), sp.FH(cn, nm)))):
+        return False
+    seen = z3.Const(fresh_name("allseen"), z3.ArraySort(sp.S, sp.B))
+    st.assume(all_seen(seen, cn))
+    st.assume(kw_invariant(seen, has, val, j, cn))
+    st.ghost["kw_loop"] = (seen, has, val, j, cn)
+    return True
 
 
 def decoder_contracts():
@@ -406,6 +425,7 @@ def decoder_contracts():
         raises=[Raises("Exception", sub=True, label="malformed encoding (not produced by to_json)")],
         note="the class named by _type (if registered) else the expected class, every declared field decoded by its hint")
     c.construct_facts = dd_construct_facts
+    c.nameset_comp = dd_nameset_comp
     c.nameset_loop = LoopSpec(inv=dd_loop_inv, label="fields")    # whichever loop iterates the set of field names
     out.append(c)
     out.append(FnContract(
@@ -472,7 +492,7 @@ def main_contract(res_spec, unit_spec):
             val, kws = dumped[writes[0].t.get_id()]
             if kws:
                 c.note = f"json.dumps called with {sorted(kws)}: not the standard encoder's defaults (ensure_ascii etc.)"
-                return z3.And(z3.Not(jsonmode), z3.Bool(fresh_name(UNMODELLED)))
+                return z3.And(z3.Not(jsonmode), marker(UNMODELLED))
             n = g.get("cli_results_n")
             if n is None:
                 return F
@@ -569,7 +589,10 @@ def _untrusted(pc, goal):
         if x.get_id() in seen:
             continue
         seen.add(x.get_id())
-        if z3.is_const(x) and x.decl().name().startswith(("c05!overapprox", UNMODELLED)):
+        if z3.is_app(x) and (x.decl().name().startswith(("c05!overapprox", UNMODELLED)) or
+                             (x.num_args() > 0 and x.decl().kind() == z3.Z3_OP_UNINTERPRETED and x.decl().name() in sp.DEFS)):
+            # marks of over-approximated paths, or a recursive spec function left folded on a symbolic argument: the solver's
+            # model interprets it freely, so `sat` is not a counter-example by itself
             return True
         stack.extend(x.children())
     return False
@@ -589,7 +612,7 @@ def result_scalar(c, idx=None):
     t = c.ex.to_pv(c.st, r)
     if t is None and isinstance(r, VUnk):
         c.note = f"the stored value comes from an unmodelled call ({r.tag})"
-        return z3.Bool(fresh_name(UNMODELLED))
+        return marker(UNMODELLED)
     return sp.scalar_ok(t) if t is not None else F
 
 
